@@ -2,6 +2,7 @@ import FimVerif.Model.GraphML
 import FimVerif.Proofs.Lemmas.C01Doc
 import FimVerif.Proofs.Lemmas.C01Iter
 import FimVerif.Proofs.Lemmas.C01Store
+import FimVerif.Proofs.Lemmas.C01Equiv
 /-!
 # C01 — model serialization round trip is lossless and re-importable
 
@@ -558,26 +559,366 @@ def serializeG (G : Graph Nat) (f : Fmt) : Except String (Option (Doc Nat)) :=
       | .ok d' => .ok (some (.graphml d'))
   | .json => .ok (some (.json (toJSON G)))
 
-/-- **`reserialize_stable` (partial).**  Serialising the imported copy is the serialiser applied to
-    the renamed copy of the original graph (same attribute dicts, `GraphID` stamped, edges under
-    the injective renaming `k ↦ start_id + position(k)`).  *Missing for the full statement:* that
-    `toGraphML` / `toJSON` commute with that renaming (same key table, same data, ids renamed) —
-    established only differentially (the harness compares the re-serialised document's content). -/
-theorem reserialize_stable_partial (s : Store) (hs : StoreInv s) (g g' : Val) (G0 : Graph Nat)
-    (hG : s.extract g = some G0) (hid : HasNodeIds G0)
+theorem serialize_eq_serializeG (s : Store) (g : Val) (G : Graph Nat) (h : s.extract g = some G) (f : Fmt) :
+    serialize s g f = serializeG G f := by
+  unfold serialize serializeG; rw [h]; cases f <;> rfl
+
+/-- a serialized document with the internal node numbering renamed by `fn`, the node data
+    elements rewritten by `hd` (GraphML) / the node attribute values by `hv` (JSON); key table,
+    element order, label markup, edge data and everything else is kept -/
+def relabelDoc (fn : Nat → Nat) (hd : List GData → List GData) (hv : String → Val → Val) : Doc Nat → Doc Nat
+  | .graphml d => .graphml (relabelGDoc fn hd d)
+  | .json d => .json (relabelJDoc fn hv d)
+
+theorem serializeG_copy (G H : Graph Nat) (fn : Nat → Nat) (h : Attrs → Attrs) (hd : List GData → List GData)
+    (hv : String → Val → Val)
+    (hn : H.nodes = G.nodes.map fun p => (fn p.1, h p.2))
+    (he : H.edgesIter = G.edgesIter.map fun e => ⟨fn e.a, fn e.b, e.attrs⟩)
+    (hs : ∀ p ∈ G.nodes, specsOf .node (h p.2) = specsOf .node p.2)
+    (ho : ∀ p ∈ G.nodes, attrsObj (κ := Nat) (h p.2) = relabelJObj fn hv (attrsObj (κ := Nat) p.2))
+    (hdata : ∀ tbl, allocKeys G.allSpecs = some tbl →
+      (∀ p ∈ G.nodes, dataOf tbl .node (h p.2) = hd (dataOf tbl .node p.2)) ∧
+      ∀ data, classText (classKey (docKeys tbl) .node) (hd data) = classText (classKey (docKeys tbl) .node) data)
+    (f : Fmt) (doc : Doc Nat) (hser : serializeG G f = .ok (some doc)) :
+    serializeG H f = .ok (some (relabelDoc fn hd hv doc)) := by
+  cases f with
+  | json =>
+    simp only [serializeG, Except.ok.injEq, Option.some.injEq] at hser ⊢
+    subst hser
+    simp only [relabelDoc, toJSON_copy G H fn h hv hn he ho]
+  | graphml =>
+    simp only [serializeG] at hser ⊢
+    cases h1 : toGraphML G with
+    | error e => simp [h1] at hser
+    | ok d =>
+      cases h2 : toNeo4j d with
+      | error e => simp [h1, h2] at hser
+      | ok d' =>
+        simp only [h1, h2, Except.ok.injEq, Option.some.injEq] at hser
+        subst hser
+        obtain ⟨tbl, ht, hdeq⟩ := toGraphML_ok G d h1
+        obtain ⟨hd1, hd2⟩ := hdata tbl ht
+        have hH : toGraphML H = .ok (relabelGDoc fn hd d) := by
+          rw [toGraphML_copy G H fn h hn he hs tbl ht, hdeq]
+          simp only [relabelGDoc, List.map_map, Function.comp_def, Except.ok.injEq, GDoc.mk.injEq, true_and]
+          refine ⟨?_, trivial⟩
+          apply List.map_congr_left
+          intro p hp
+          rw [hd1 p hp]
+        have hk : d.keys = docKeys tbl := by rw [hdeq]
+        have hN := toNeo4j_relabel fn hd d (by rw [hk]; exact hd2)
+        rw [hH]
+        simp only [hN, h2, Except.map, relabelDoc]
+
+/-- the GraphML key id under which the nodes' `GraphID` is written -/
+def gidKeyOf (G : Graph Nat) (ty : KTy) : Nat :=
+  match allocKeys G.allSpecs with
+  | some tbl => tbl.idxOf ⟨"GraphID", ty, .node⟩
+  | none => 0
+
+/-- **`reserialize_stable` (reassigning entry points).**  Serialising the imported copy gives the
+    *same document* as serialising the original — same key table, same element order, same label
+    markup, same data and typing — up to exactly two things the code does not preserve: the
+    internal node numbering (node id / source / target are renamed by the injective
+    `k ↦ start_id + position(k)`) and the text of the nodes' `GraphID` (the new graph id `g'`,
+    which must be of the same value type as the old one, e.g. both strings). -/
+theorem reserialize_stable_string (s : Store) (hs : StoreInv s) (g g' : Val) (G0 : Graph Nat)
+    (hG : s.extract g = some G0) (hid : HasNodeIds G0) (hkn : KeysNodup G0)
+    (ty : KTy) (hty : xmlType g = some ty) (hty' : xmlType g' = some ty)
+    (f : Fmt) (hr : f = .json → NoReserved G0)
+    (doc : Doc Nat) (hser : serialize s g f = .ok (some doc)) (f' : Fmt)
+    (doc' : Doc Nat) (hser' : serialize s g f' = .ok (some doc')) :
+    serialize (importString s doc g').2 g' f' =
+      .ok (some (relabelDoc (fun k => s.nextId + G0.keys.idxOf k) (stampData (gidKeyOf G0 ty) g') (stampV g') doc')) := by
+  obtain ⟨_, h2⟩ := roundtrip_import_string s hs g g' G0 hG hid f (fun _ => hkn) hr doc hser
+  obtain ⟨hne, hw, _, hgid, _⟩ := extract_spec s hs g G0 hG
+  rw [serialize_eq_serializeG _ _ _ h2]
+  rw [serialize_eq_serializeG _ _ _ hG] at hser'
+  apply serializeG_copy G0 (stampedCopy G0 s.nextId g') (fun k => s.nextId + G0.keys.idxOf k)
+    (fun a => a.set "GraphID" g') _ _ rfl _ _ _ _ f' doc' hser'
+  · have := iter_relabelled G0 hw s.nextId
+    simp only [stampedCopy, Graph.edgesIter, Graph.keys, List.map_map, Function.comp_def] at this ⊢
+    exact this
+  · intro p hp
+    exact specsOf_set g g' (by rw [hty, hty']) p.2 (hgid p hp)
+  · intro p hp
+    exact attrsObj_set _ g g' p.2 (hgid p hp) (hkn.1 p hp)
+  · intro tbl ht
+    obtain ⟨_, hall⟩ := allocKeys_spec _ _ ht
+    have hin : ∀ p ∈ G0.nodes, ∀ q ∈ p.2, ∃ t, xmlType q.2 = some t ∧ (⟨q.1, t, .node⟩ : KeySpec) ∈ tbl := by
+      intro p hp
+      exact specs_in_table tbl .node p.2 G0.allSpecs
+        (by
+          intro sp hsp
+          unfold Graph.allSpecs
+          exact List.mem_append_left _ (List.mem_flatMap.mpr ⟨p, hp, hsp⟩)) hall
+    have hgk : gidKeyOf G0 ty = tbl.idxOf ⟨"GraphID", ty, .node⟩ := by simp [gidKeyOf, ht]
+    have hgmem : (⟨"GraphID", ty, .node⟩ : KeySpec) ∈ tbl := by
+      cases hnodes : G0.nodes with
+      | nil => exact absurd hnodes hne
+      | cons p0 t =>
+        have hp0 : p0 ∈ G0.nodes := by rw [hnodes]; exact List.mem_cons_self
+        obtain ⟨t1, ht1, hm1⟩ := hin p0 hp0 _ (Attrs.mem_of_get p0.2 "GraphID" g (hgid p0 hp0))
+        simp only at ht1 hm1
+        rw [hty] at ht1
+        exact (Option.some.inj ht1) ▸ hm1
+    rw [hgk]
+    constructor
+    · intro p hp
+      exact dataOf_stamp tbl g g' ty hty hty' p.2 (hgid p hp) (hkn.1 p hp) (hin p hp)
+    · intro data
+      exact classText_stamp _ _ g' (classKey_ne_gid tbl ty hgmem) data
+
+/-- **`reserialize_stable` (direct entry points).**  Serialising the directly imported copy gives
+    the same document as serialising the original up to the internal node numbering only. -/
+theorem reserialize_stable_direct (s : Store) (hs : StoreInv s) (g : Val) (G0 : Graph Nat)
+    (hG : s.extract g = some G0)
     (f : Fmt) (hk : f = .graphml → KeysNodup G0) (hr : f = .json → NoReserved G0)
-    (doc : Doc Nat) (hser : serialize s g f = .ok (some doc)) (f' : Fmt) :
-    serialize s g f' = serializeG G0 f' ∧
-    serialize (importString s doc g').2 g' f' = serializeG (stampedCopy G0 s.nextId g') f' := by
-  obtain ⟨_, h2⟩ := roundtrip_import_string s hs g g' G0 hG hid f hk hr doc hser
-  constructor
-  · unfold serialize serializeG; rw [hG]; cases f' <;> rfl
-  · unfold serialize serializeG; rw [h2]; cases f' <;> rfl
+    (doc : Doc Nat) (hser : serialize s g f = .ok (some doc)) (f' : Fmt)
+    (doc' : Doc Nat) (hser' : serialize s g f' = .ok (some doc')) :
+    serialize (importDirect s doc).2 g f' =
+      .ok (some (relabelDoc (fun k => s.nextId + G0.keys.idxOf k) id (fun _ v => v) doc')) := by
+  obtain ⟨_, h2⟩ := roundtrip_import_direct s hs g G0 hG f hk hr doc hser
+  obtain ⟨_, hw, _, _, _⟩ := extract_spec s hs g G0 hG
+  rw [serialize_eq_serializeG _ _ _ h2]
+  rw [serialize_eq_serializeG _ _ _ hG] at hser'
+  apply serializeG_copy G0 (directCopy G0 s.nextId) (fun k => s.nextId + G0.keys.idxOf k)
+    id _ _ rfl _ _ _ _ f' doc' hser'
+  · have := iter_relabelled G0 hw s.nextId
+    simp only [directCopy, Graph.edgesIter, Graph.keys, List.map_map, Function.comp_def] at this ⊢
+    exact this
+  · intro p _; rfl
+  · intro p _; exact attrsObj_id _ p.2
+  · intro tbl _
+    exact ⟨fun p _ => rfl, fun _ => rfl⟩
 
 /-- the renaming used by the copies is injective on the node keys -/
 theorem copy_renaming_injective [DecidableEq κ] (G : Graph κ) (start : Nat) :
     ∀ x ∈ G.keys, ∀ y ∈ G.keys, start + G.keys.idxOf x = start + G.keys.idxOf y → x = y :=
   fun x hx y hy e => idxOf_inj G.keys x hx y hy (by omega)
+
+/-! ### validation after import -/
+
+theorem forE_ok_iff {α : Type} (f : α → Except String Unit) : ∀ (l : List α), forE f l = .ok () ↔ ∀ a ∈ l, f a = .ok ()
+  | [] => by simp [forE]
+  | a :: t => by
+    have ih := forE_ok_iff f t
+    unfold forE
+    cases h : f a with
+    | error e => simp [h]
+    | ok u => simp [h, ih]
+
+theorem Attrs.get_set_ne (a : Attrs) (k k' : String) (v : Val) (h : k' ≠ k) : (Attrs.set a k v).get? k' = a.get? k' := by
+  induction a with
+  | nil =>
+    have hb : (k' == k) = false := by simpa using h
+    simp [Attrs.set, Attrs.get?, List.lookup_cons, hb]
+  | cons p t ih =>
+    obtain ⟨k0, v0⟩ := p
+    by_cases h0 : k0 = k
+    · subst h0
+      have hb : (k' == k0) = false := by simpa using h
+      simp [Attrs.set, Attrs.get?, List.lookup_cons, hb]
+    · simp only [Attrs.set, h0, if_false, Attrs.get?, List.lookup_cons] at ih ⊢
+      cases hk : (k' == k0) with
+      | true => rfl
+      | false => exact ih
+
+theorem extract_nodes (s : Store) (g : Val) (G0 : Graph Nat) (h : s.extract g = some G0) :
+    G0.nodes = (s.graphNodes g).map fun n => (n.iid, n.attrs) := by
+  unfold Store.extract at h
+  simp only at h
+  split at h
+  · cases h
+  · simp only [Option.some.injEq] at h
+    rw [← h]
+
+/-- the state `add_graph` leaves behind when every node has a NodeID -/
+theorem addGraph_state [DecidableEq κ] (s : Store) (g : Val) (G : Graph κ) (hid : HasNodeIds G) :
+    (s.addGraph g G).2 = (s.delGraph g).merge
+      { nodes := G.nodes.map fun p => (s.nextId + G.keys.idxOf p.1, p.2.set "GraphID" g),
+        edges := G.edgesIter.map (ren fun k => s.nextId + G.keys.idxOf k) } := by
+  have hall : ((Store.relabelFrom G (s.delGraph g).nextId).nodes.all
+      fun p => ((p.2.get? "NodeID").map Val.truthy).getD false) = true := by
+    simp only [Store.relabelFrom, Graph.relabel, List.all_map, List.all_eq_true]
+    intro p hp
+    exact hid p hp
+  unfold Store.addGraph
+  simp only [hall, if_true]
+  simp only [Store.relabelFrom, Graph.relabel, delGraph_nextId, List.map_map, Function.comp_def]
+  rfl
+
+theorem hasClass_set (a : Attrs) (g' : Val) : hasClass (a.set "GraphID" g') = hasClass a := by
+  unfold hasClass
+  rw [Attrs.get_set_ne a "GraphID" "Class" g' (by decide)]
+
+theorem checkJsonProp_set (jsonOk : String → Bool) (a : Attrs) (g' : Val) (name : String) (h : name ≠ "GraphID") :
+    checkJsonProp jsonOk (a.set "GraphID" g') name = checkJsonProp jsonOk a name := by
+  unfold checkJsonProp
+  rw [Attrs.get_set_ne a "GraphID" name g' h]
+
+/-- **`validates_after_import`.**  If `validate_graph()` passes for the stored graph `g` (all its
+    JSON-typed properties parse, every node and edge of the store has a `Class`), then after
+    serialising `g` (either format) and importing the text under any id `g'` through
+    `import_graph_from_string` / `_file`, `validate_graph()` passes for the imported graph.
+    `names` is any list of JSON property names not containing `GraphID`; `jsonOk` any parser verdict. -/
+theorem validates_after_import (names : List String) (jsonOk : String → Bool) (hnames : "GraphID" ∉ names)
+    (s : Store) (hs : StoreInv s) (g g' : Val) (G0 : Graph Nat)
+    (hG : s.extract g = some G0) (hid : HasNodeIds G0)
+    (f : Fmt) (hk : f = .graphml → KeysNodup G0) (hr : f = .json → NoReserved G0)
+    (doc : Doc Nat) (hser : serialize s g f = .ok (some doc))
+    (hv : validate names jsonOk s g = .ok ()) :
+    validate names jsonOk (importString s doc g').2 g' = .ok () := by
+  -- what validation of the original tells us
+  unfold validate at hv
+  split at hv
+  · cases hv
+  · rename_i hne0
+    cases hfor : forE (checkNode names jsonOk s g) (s.graphNodes g) with
+    | error e => simp [hfor] at hv
+    | ok u =>
+      simp only [hfor] at hv
+      split at hv
+      · rename_i hcls
+        simp only [Bool.and_eq_true, List.all_eq_true] at hcls
+        obtain ⟨hcn, hce⟩ := hcls
+        have hchk := (forE_ok_iff _ _).mp (by cases u; exact hfor)
+        -- the state after the import
+        have hread := readDoc_serialize s hs g G0 hG f hk hr doc hser
+        obtain ⟨hne, hw, hit, hgid, hmem⟩ := extract_spec s hs g G0 hG
+        have hnodes := extract_nodes s g G0 hG
+        have hemp : G0.nodes.isEmpty = false := by
+          cases hn : G0.nodes with
+          | nil => exact absurd hn hne
+          | cons a t => rfl
+        have hst : (importString s doc g').2 = (s.addGraph g' G0).2 := by
+          unfold importString
+          rw [hread]
+          simp only [hemp, Bool.false_eq_true, if_false]
+          cases s.addGraph g' G0 with
+          | mk r s' => cases r <;> rfl
+        rw [hst, addGraph_state s g' G0 hid]
+        -- name the pieces
+        let fn : Nat → Nat := fun k => s.nextId + G0.keys.idxOf k
+        let cp : SNode → SNode := fun n => ⟨fn n.iid, n.attrs.set "GraphID" g'⟩
+        have hcopies : ((G0.nodes.map fun p => (fn p.1, p.2.set "GraphID" g')).map fun p => (⟨p.1, p.2⟩ : SNode))
+            = (s.graphNodes g).map cp := by
+          rw [hnodes]; simp [List.map_map, Function.comp_def, cp]
+        have hgn : Store.graphNodes ((s.delGraph g').merge
+              { nodes := G0.nodes.map fun p => (fn p.1, p.2.set "GraphID" g'),
+                edges := G0.edgesIter.map (ren fn) }) g' = (s.graphNodes g).map cp := by
+          show List.filter (Store.inGraph g') ((s.delGraph g').nodes ++
+              (G0.nodes.map fun p => (fn p.1, p.2.set "GraphID" g')).map fun p => (⟨p.1, p.2⟩ : SNode)) = _
+          have h1 : (s.delGraph g').nodes.filter (Store.inGraph g') = [] := delGraph_graphNodes s g'
+          rw [List.filter_append, h1, List.nil_append, hcopies, List.filter_eq_self]
+          intro n hn
+          obtain ⟨m, _, rfl⟩ := List.mem_map.mp hn
+          simp [Store.inGraph, cp, Attrs.get_set]
+        unfold validate
+        rw [hgn]
+        have hne' : ((s.graphNodes g).map cp).isEmpty = false := by
+          cases hx : s.graphNodes g with
+          | nil => simp [hx] at hne0
+          | cons a t => rfl
+        simp only [hne', Bool.false_eq_true, if_false]
+        -- every copied node passes the JSON check
+        have hfor' : forE (checkNode names jsonOk ((s.delGraph g').merge
+              { nodes := G0.nodes.map fun p => (fn p.1, p.2.set "GraphID" g'),
+                edges := G0.edgesIter.map (ren fn) }) g') ((s.graphNodes g).map cp) = .ok () := by
+          rw [forE_ok_iff]
+          intro n' hn'
+          obtain ⟨n, hn, rfl⟩ := List.mem_map.mp hn'
+          have hc := hchk n hn
+          unfold checkNode at hc ⊢
+          cases hnid : n.attrs.get? "NodeID" with
+          | none => simp [hnid] at hc
+          | some nid =>
+            simp only [hnid] at hc
+            have hnid' : (cp n).attrs.get? "NodeID" = some nid := by
+              simp only [cp]; rw [Attrs.get_set_ne _ _ _ _ (by decide)]; exact hnid
+            simp only [hnid']
+            cases hfn : findNode s g nid with
+            | error e => simp [hfn] at hc
+            | ok m =>
+              simp only [hfn] at hc
+              have hfil : (s.graphNodes g).filter (fun n => n.attrs.get? "NodeID" == some nid) = [m] := by
+                unfold findNode at hfn
+                split at hfn
+                · cases hfn
+                · rename_i x hx; simp only [Except.ok.injEq] at hfn; rw [hx, hfn]
+                · cases hfn
+              have hfn' : findNode ((s.delGraph g').merge
+                  { nodes := G0.nodes.map fun p => (fn p.1, p.2.set "GraphID" g'),
+                    edges := G0.edgesIter.map (ren fn) }) g' nid = .ok (cp m) := by
+                unfold findNode
+                rw [hgn, List.filter_map]
+                have : ((fun n : SNode => n.attrs.get? "NodeID" == some nid) ∘ cp)
+                    = fun n : SNode => n.attrs.get? "NodeID" == some nid := by
+                  funext x
+                  simp only [Function.comp_apply, cp]
+                  rw [Attrs.get_set_ne _ _ _ _ (by decide)]
+                rw [this, hfil]
+                rfl
+              simp only [hfn']
+              have hcl : ((cp m).attrs.get? "Class") = m.attrs.get? "Class" := by
+                simp only [cp]; exact Attrs.get_set_ne _ _ _ _ (by decide)
+              rw [hcl]
+              split at hc
+              · cases hc
+              · rename_i hcl0
+                simp only [hcl0, Bool.false_eq_true, if_false]
+                rw [forE_ok_iff] at hc ⊢
+                intro name hname
+                have : name ≠ "GraphID" := fun e => hnames (e ▸ hname)
+                simp only [cp]
+                rw [checkJsonProp_set jsonOk m.attrs g' name this]
+                exact hc name hname
+        rw [hfor']
+        -- every node and edge of the new store has a Class
+        have hallc : (((s.delGraph g').merge
+              { nodes := G0.nodes.map fun p => (fn p.1, p.2.set "GraphID" g'),
+                edges := G0.edgesIter.map (ren fn) }).nodes.all (fun n => hasClass n.attrs) &&
+            ((s.delGraph g').merge
+              { nodes := G0.nodes.map fun p => (fn p.1, p.2.set "GraphID" g'),
+                edges := G0.edgesIter.map (ren fn) }).edges.all (fun e => hasClass e.attrs)) = true := by
+          simp only [Bool.and_eq_true, List.all_eq_true, Store.merge]
+          constructor
+          · intro n hn
+            rcases List.mem_append.mp hn with h | h
+            · exact hcn n (List.mem_filter.mp h).1
+            · rw [hcopies] at h
+              obtain ⟨m, hm, rfl⟩ := List.mem_map.mp h
+              simp only [cp]
+              rw [hasClass_set]
+              exact hcn m (List.mem_filter.mp hm).1
+          · intro e he
+            rcases List.mem_append.mp he with h | h
+            · exact hce e (List.mem_filter.mp h).1
+            · obtain ⟨_, _, e1, he1, hat1, _⟩ := mem_iterFrom _ _ _ e h
+              obtain ⟨e2, he2, rfl⟩ := List.mem_map.mp he1
+              obtain ⟨_, _, e3, he3, hat3, _⟩ := mem_iterFrom G0.edges G0.keys [] e2 he2
+              have hG0e : ∃ e4 ∈ s.edges, e3.attrs = e4.attrs := by
+                unfold Store.extract at hG
+                simp only at hG
+                split at hG
+                · cases hG
+                · simp only [Option.some.injEq] at hG
+                  rw [← hG] at he3
+                  obtain ⟨_, _, e4, he4, hat4, _⟩ := mem_iterFrom _ _ _ e3 he3
+                  exact ⟨e4, (List.mem_filter.mp he4).1, hat4⟩
+              obtain ⟨e4, he4, hat4⟩ := hG0e
+              rw [hat1]
+              simp only [ren]
+              rw [hat3, hat4]
+              exact hce e4 he4
+        exact if_pos hallc
+      · cases hv
+
+example : ∃ (s : Store) (names : List String), "GraphID" ∉ names ∧ names ≠ [] ∧ StoreInv s ∧
+    validate names (fun t => t == "{\"core\": 4}") s (.str "g") = .ok () :=
+  ⟨⟨[⟨1, [("GraphID", .str "g"), ("Class", .str "NetworkNode"), ("NodeID", .str "a"), ("Capacities", .str "{\"core\": 4}")]⟩,
+      ⟨2, [("GraphID", .str "g"), ("Class", .str "Component"), ("NodeID", .str "b"), ("Labels", .str "")]⟩],
+     [⟨2, 1, [("Class", .str "has")]⟩], 3⟩, ["Labels", "Capacities"], by decide, by decide, by decide, rfl⟩
 
 /-! ### importing touches no other graph -/
 
@@ -774,5 +1115,71 @@ theorem labels_markup (d d' : GDoc κ) (h : toNeo4j d = .ok d')
         | some i =>
           rw [hc] at hk
           exact ⟨i, x, rfl, hd ▸ hx, Option.some.inj hk, hne, hl⟩
+
+end FimVerif.C01
+
+/-! ### the disjoint store (round trip of the whole pipeline is differential only) -/
+namespace FimVerif.C01
+open FimVerif.GraphML
+variable {κ : Type}
+
+theorem DStore.lookup_put {β : Type} : ∀ (l : List (Val × β)) (k : Val) (v : β), (DStore.put l k v).lookup k = some v
+  | [], k, v => by simp [DStore.put, List.lookup]
+  | (k', v') :: t, k, v => by
+    by_cases h : k' = k
+    · simp [DStore.put, h, List.lookup]
+    · have hb : (k == k') = false := by simpa using fun e : k = k' => h e.symm
+      simp only [DStore.put, h, if_false, List.lookup_cons, hb]
+      exact DStore.lookup_put t k v
+
+/-- **disjoint store, `add_graph_direct`**: afterwards `extract_graph g` is the imported graph with
+    node `k` renamed to `1 + position(k)`, attributes and edges unchanged -/
+theorem dAddGraphDirect_extract [DecidableEq κ] (s : DStore) (g : Val) (G : Graph κ) (hw : GraphWF G) :
+    ((s.addGraphDirect g G).extract g).1 = directCopy G 1 := by
+  unfold DStore.extract DStore.addGraphDirect
+  simp only [DStore.lookup_put]
+  have := iter_relabelled G hw 1
+  simp only [DStore.copyGraph, Store.relabelFrom, Graph.relabel, directCopy, Graph.edgesIter, Graph.keys,
+    List.map_map, Function.comp_def] at this ⊢
+  rw [Graph.mk.injEq]
+  exact ⟨rfl, this⟩
+
+/-- **disjoint store, `add_graph`** under an id that holds no (non-empty) graph: the import succeeds
+    and `extract_graph g` is the stamped copy numbered from 1 -/
+theorem dAddGraph_extract [DecidableEq κ] (s : DStore) (g : Val) (G : Graph κ) (hw : GraphWF G) (hid : HasNodeIds G)
+    (hfree : ∀ old, s.graphs.lookup g = some old → old.nodes.isEmpty = true) :
+    (s.addGraph g G).1 = .ok () ∧ ((s.addGraph g G).2.extract g).1 = stampedCopy G 1 g := by
+  have hall : ((Store.relabelFrom G 1).nodes.all fun p => ((p.2.get? "NodeID").map Val.truthy).getD false) = true := by
+    simp only [Store.relabelFrom, Graph.relabel, List.all_map, List.all_eq_true]
+    intro p hp
+    exact hid p hp
+  have hgo : DStore.addGraph.go s g G =
+      (.ok (), { graphs := DStore.put s.graphs g
+                   { nodes := (Store.relabelFrom G 1).nodes.map fun p => (p.1, p.2.set "GraphID" g),
+                     edges := iterFrom (Store.relabelFrom G 1).edges []
+                       (((Store.relabelFrom G 1).nodes.map fun p => (p.1, p.2.set "GraphID" g)).map (·.1)) },
+                 counters := DStore.put s.counters g (((Store.relabelFrom G 1).nodes.map fun p => (p.1, p.2.set "GraphID" g)).length + 1) }) := by
+    unfold DStore.addGraph.go
+    simp only [hall, if_true]
+    rfl
+  have hag : s.addGraph g G = DStore.addGraph.go s g G := by
+    unfold DStore.addGraph
+    cases hl : s.graphs.lookup g with
+    | none => rfl
+    | some old => simp [hfree old hl]
+  rw [hag, hgo]
+  refine ⟨rfl, ?_⟩
+  unfold DStore.extract
+  simp only [DStore.lookup_put]
+  have hit := iter_relabelled G hw 1
+  simp only [DStore.copyGraph, Store.relabelFrom, Graph.relabel, stampedCopy, Graph.edgesIter, Graph.keys,
+    List.map_map, Function.comp_def] at hit ⊢
+  rw [Graph.mk.injEq]
+  refine ⟨rfl, ?_⟩
+  show iterFrom (iterFrom (List.map (ren fun k => 1 + List.idxOf k (List.map (fun x => x.fst) G.nodes))
+      (iterFrom G.edges [] (List.map (fun x => x.fst) G.nodes))) []
+      (List.map (fun x => 1 + List.idxOf x.fst (List.map (fun x => x.fst) G.nodes)) G.nodes)) []
+      (List.map (fun x => 1 + List.idxOf x.fst (List.map (fun x => x.fst) G.nodes)) G.nodes) = _
+  rw [hit, hit]
 
 end FimVerif.C01
